@@ -102,6 +102,12 @@ def oracle(case, out):
     # periodic scripts: the property text on the event trace
     tasks = {}
     slept = any(f["sleep_at"] for f in case.get("fns", []))
+    nper = sum(1 for op in case["ops"] if op[0] == "periodic")
+    if slept and nper == 1:
+        # a single task whose in-call sleeps never exceed its period still ticks exactly on the multiples (drift correction)
+        per = next(op[2] for op in case["ops"] if op[0] == "periodic")
+        if all(d <= per for f in case["fns"] for _, d in f["sleep_at"]):
+            slept = False
     for ev in out["events"]:
         k = ev[0]
         if k == "periodic":
